@@ -14,6 +14,10 @@ CLAIMS = {
    text="predictor.update is proved against a full functional contract (interval stays in [min,max], steady production is a fixed point, several certificates shorten, none backs off, back-off doubles up to 10*max) for all states and all progress values; Subscriber.poll and Poller.CatchUp are proved to return exactly NextInstance' - NextInstance; the timer re-arm in Subscriber.run is proved to wait interval + min(request time, interval/2).",
    note="One-step facts only: no trajectory of the cadence is simulated. Poller.Poll is used through an assumed contract (NextInstance never decreases). The select statement in run is abstracted (everything havoc'd); durations are assumed below 2^62 ns. " + LEVEL_NOTE_COMMON,
    tech="contract-based deductive verification (own VC generator over go/ssa, SMT)"),
+ "C19": dict(cat="proof", ref="DESIGN.md §6 C19",
+   text="The simulator's decision oracle (ECInstance.validateDecision) is proved to accept only decisions with the right instance, DECIDE step, round 0, signers inside the table with non-zero scaled power, a strong quorum of scaled power (the same predicate as C08) and a verified aggregate over exactly those signers; invalid or unknown-instance decisions are proved to be recorded as errors, Simulation.Run is proved to check the recorded errors and the consensus of a completed instance before going on; certchain.GetCommittee is proved to use the certificate of instance - lookback, the node's rule.",
+   note="ECInstance.HasReachedConsensus / HasCompleted are not under contract (their results are used as given). BitField.ForEach is used through a trusted iterator contract (set bits visited in increasing order). " + LEVEL_NOTE_COMMON,
+   tech="contract-based deductive verification (own VC generator over go/ssa, SMT)"),
 }
 NA = {
  "C06": "liveness under partial synchrony with real-time bounds over multi-node schedules: no function contract can state it (DESIGN.md §7)",
